@@ -38,6 +38,7 @@ pub fn install_epmd_slow(world: &Arc<World>, creation: u32, peer_alive: &str, pe
 /// like any other; nothing says it arrives in one piece).
 pub fn install_epmd_net(world: &Arc<World>, creation: u32, peer_alive: &str, peer_port: u16, x_resp: bool, lookup_delay_ms: u64, choppy: bool) {
     let peer_alive = peer_alive.to_string();
+    let registrations = Arc::new(std::sync::atomic::AtomicU32::new(0));
     world.listen(
         EPMD_ADDR,
         Box::new(move |w: &Arc<World>, _addr: &str| -> ConnectFuture {
@@ -50,6 +51,7 @@ pub fn install_epmd_net(world: &Arc<World>, creation: u32, peer_alive: &str, pee
             let Duplex { client_read, client_write, mut server_read, mut server_write, .. } = d;
             let peer_alive = peer_alive.clone();
             let w2 = w.clone();
+            let registrations = registrations.clone();
             tokio::spawn(async move {
                 let Ok(len) = server_read.read_u16().await else { return };
                 let mut body = vec![0u8; usize::from(len)];
@@ -59,6 +61,8 @@ pub fn install_epmd_net(world: &Arc<World>, creation: u32, peer_alive: &str, pee
                 match body[0] {
                     120 => {
                         w2.stat("epmd.alive2");
+                        // like the real daemon, a later registration of the name gets the next creation
+                        let creation = creation.wrapping_add(registrations.fetch_add(1, std::sync::atomic::Ordering::SeqCst));
                         let mut resp = Vec::new();
                         if x_resp {
                             resp.push(118);
